@@ -66,7 +66,10 @@ def cell_value(doc, ctype, spec):
     k = m % 3
     if not rows or not k:
       return None
-    return ['L'] + [rows[(n + i) % len(rows)] for i in range(k)]
+    ids = [rows[(n + i) % len(rows)] for i in range(k)]
+    if n % 4 == 3:
+      ids = ids + ids[:1]          # the same target listed twice (the client does not de-duplicate)
+    return ['L'] + ids
   if base == 'Any':
     return [n, s, None, True, n + 0.5, ['L', n, s]][m % 6]
   return s
@@ -79,7 +82,7 @@ def valspec():
 # ---------------------------------------------------------------------------
 # formula specs -> formula text against the current schema
 
-N_FORMS = 42
+N_FORMS = 44
 
 def _cols(doc, tref, data_only=False, formula_only=False):
   out = []
@@ -141,7 +144,11 @@ def formula_text(doc, tref, spec, self_col=None, max_ref=None):
   if form == 28: return '(%s, "x", None)' % ('$' + c1 if c1 else '$id')
   if form == 29: return 'DATE(2021, 2, 3) if $id %% 2 else DTIME(DATE(2021, 2, 3 + %d))' % (a % 20)
   if form == 30: return 'float("nan") if $id % 2 else float("inf")'
-  if form == 31: return ['2 ** 70 + $id', '-(2 ** 31) - $id', '2 ** 53 + 1'][a % 3]
+  if form == 31:
+    selfc = [x for x in _cols(doc, tref) if x['colId'] == self_col]
+    if selfc and selfc[0]['type'].startswith('Ref'):
+      return '$id'               # (huge integers as the value of a reference column: outside every listed property)
+    return ['2 ** 70 + $id', '-(2 ** 31) - $id', '2 ** 53 + 1'][a % 3]
   if form == 32: return 'rec'
   if form == 33:
     dcols = [x for x in mycols if x['type'].split(':')[0] in ('Date', 'DateTime')]
@@ -150,6 +157,15 @@ def formula_text(doc, tref, spec, self_col=None, max_ref=None):
     return 'DATE(1999, 12, 31)'
   if form == 38: return '10.0 / ($id %% %d)' % (2 + a % 2)          # raises for some rows
   if form == 39: return 'int(str(%s) or "x")' % ('$' + c1 if c1 else '$id')   # ValueError for non-numeric text
+  if form in (42, 43):
+    # formulas that swallow exceptions (also those the engine raises to re-order evaluation)
+    allc = [x for x in _cols(doc, tref) if x['colId'] != self_col and x['colId'] != 'group']
+    fcs = [x for x in allc if x['isFormula']] or allc
+    if fcs:
+      x = fcs[(a + c) % len(fcs)]
+      if form == 42:
+        return 'IFERROR($%s, -1)' % x['colId']
+      return 'IFERROR($%s, -1) if $id %% 2 else IFERROR(%s, "e")' % (x['colId'], '$' + c1 if c1 else '1/0')
   if form in (40, 41):
     # dependencies between two formula columns across DIFFERENT rows with a possibly cyclic column graph:
     # 40: a same-row reference to ANY other column (later ones included) for one row only, data for the rest;
@@ -250,7 +266,7 @@ def formula_text(doc, tref, spec, self_col=None, max_ref=None):
 
 
 # reference chains and lookups are what real documents use most: weight them up
-FORM_WEIGHTS = {40: 3, 41: 3, 38: 3, 39: 2, 36: 3, 37: 2, 34: 4, 35: 2, 1: 2, 2: 2, 3: 2, 5: 6, 6: 4, 7: 4, 8: 4, 9: 3, 10: 2, 11: 2, 12: 2, 13: 2, 14: 2, 15: 2, 18: 3,
+FORM_WEIGHTS = {42: 2, 43: 1, 40: 3, 41: 3, 38: 3, 39: 2, 36: 3, 37: 2, 34: 4, 35: 2, 1: 2, 2: 2, 3: 2, 5: 6, 6: 4, 7: 4, 8: 4, 9: 3, 10: 2, 11: 2, 12: 2, 13: 2, 14: 2, 15: 2, 18: 3,
                 19: 2, 20: 2, 21: 2}
 _FORMS = []
 for _f in range(N_FORMS):
@@ -383,7 +399,8 @@ def r_addfcol(doc, op):
 
 def r_addref(doc, op):
   t = _tables(doc, op['a'], include_summary=False)
-  tgt = _tables(doc, op['b'], include_summary=False)
+  # now and then the target is a summary table (a reference to a group)
+  tgt = _tables(doc, op['b'], include_summary=(int(op['c']) % 5 == 4))
   if not t or not tgt: return None
   typ = ('RefList:' if int(op['c']) % 2 else 'Ref:') + tgt['tableId']
   return ['AddColumn', t['tableId'], _name(COL_NAMES, op['name']), {'type': typ, 'isFormula': False}]
@@ -623,6 +640,19 @@ def r_sortspec(doc, op):
   return ['BulkUpdateRecord', '_grist_Views_section', secs, {'sortColRefs': specs}]
 
 
+def r_filter(doc, op):
+  """Save a column filter on a view section (a _grist_Filters record), as the client's 'save filter' does."""
+  fields = [f for f in doc.meta('_grist_Views_section_field') if f['parentId'] and f['colRef']]
+  if not fields: return None
+  f = fields[int(op['a']) % len(fields)]
+  existing = [x for x in doc.meta('_grist_Filters') if x['viewSectionRef'] == f['parentId'] and x['colRef'] == f['colRef']]
+  spec = ['{"excluded": [1]}', '{"included": ["a", 2]}', '{"excluded": []}'][int(op['b']) % 3]
+  if existing:
+    return ['UpdateRecord', '_grist_Filters', existing[0]['id'], {'filter': spec, 'pinned': bool(int(op['c']) % 2)}]
+  return ['AddRecord', '_grist_Filters', None, {'viewSectionRef': f['parentId'], 'colRef': f['colRef'], 'filter': spec,
+                                                'pinned': bool(int(op['c']) % 2)}]
+
+
 def r_displaycol(doc, op):
   cands = [c for c in doc.columns_meta() if c['type'].startswith('Ref') and not is_hidden_col(c['colId'])]
   if not cands: return None
@@ -773,7 +803,7 @@ RESOLVERS = {
   'reverse': r_reverse, 'meta_col': r_meta_col, 'meta_table': r_meta_table, 'meta_rmcol': r_meta_rmcol,
   'meta_rmtable': r_meta_rmtable, 'meta_rmfield': r_meta_rmfield, 'rawtitle': r_rawtitle,
   'displaycol': r_displaycol, 'rule': r_rule, 'trigger': r_trigger, 'choices': r_choices,
-  'copyfrom': r_copyfrom, 'bad': r_bad, 'revive': r_revive, 'rmref': r_rmref, 'sortspec': r_sortspec, 'retoggle': r_retoggle,
+  'copyfrom': r_copyfrom, 'bad': r_bad, 'revive': r_revive, 'rmref': r_rmref, 'sortspec': r_sortspec, 'retoggle': r_retoggle, 'filter': r_filter,
 }
 
 SCHEMA_KINDS = set(RESOLVERS) - {'add', 'update', 'remove', 'replace', 'bad'}
@@ -815,7 +845,7 @@ def op_strategy(kind):
     base.update(name=st.integers(0, len(TABLE_NAMES) - 1), c=_sel)
   elif kind in ('summary', 'summaryupd', 'sortspec'):
     base.update(b=_mask, c=_sel)
-  elif kind in ('addview', 'addsection', 'displaycol', 'rmsection'):
+  elif kind in ('addview', 'addsection', 'displaycol', 'rmsection', 'filter'):
     base.update(b=_sel, c=_sel)
   elif kind == 'meta_col':
     base.update(b=_sel, c=_sel, t=_sel, name=st.integers(0, len(COL_NAMES) - 1), f=fspec())
@@ -836,7 +866,7 @@ PROFILES = {
     'modformula': 4, 'toggle': 2, 'rmtable': 1, 'rentable': 3, 'duptable': 1,
     'summary': 4, 'summaryupd': 2, 'detach': 1, 'addview': 1, 'addsection': 1, 'rmsection': 1, 'rmview': 1,
     'reverse': 2, 'meta_col': 4, 'meta_table': 1, 'meta_rmcol': 1, 'meta_rmtable': 1, 'meta_rmfield': 1,
-    'rawtitle': 1, 'displaycol': 1, 'rule': 1, 'trigger': 2, 'choices': 1, 'copyfrom': 1, 'bad': 2, 'sortspec': 2, 'retoggle': 2,
+    'rawtitle': 1, 'displaycol': 1, 'rule': 1, 'trigger': 2, 'choices': 1, 'copyfrom': 1, 'bad': 2, 'sortspec': 2, 'retoggle': 2, 'filter': 2,
   },
   'formula': {
     'add': 12, 'update': 14, 'remove': 5,
@@ -850,7 +880,7 @@ PROFILES = {
     'modformula': 2, 'toggle': 3, 'rmtable': 2, 'rentable': 3, 'duptable': 1,
     'summary': 4, 'summaryupd': 3, 'detach': 2, 'addview': 2, 'addsection': 2, 'rmsection': 2, 'rmview': 2,
     'reverse': 3, 'meta_col': 6, 'meta_table': 2, 'meta_rmcol': 3, 'meta_rmtable': 2, 'meta_rmfield': 2,
-    'rawtitle': 2, 'displaycol': 2, 'rule': 2, 'trigger': 2, 'choices': 1, 'copyfrom': 1, 'bad': 3, 'sortspec': 3, 'retoggle': 3,
+    'rawtitle': 2, 'displaycol': 2, 'rule': 2, 'trigger': 2, 'choices': 1, 'copyfrom': 1, 'bad': 3, 'sortspec': 3, 'retoggle': 3, 'filter': 3,
   },
   # type changes of columns that formulas, summary tables and two-way references depend on
   'typechange': {
